@@ -30,7 +30,9 @@ package facts
 //               regenerates), time.Second & co, receiver fields named in the FnSpec,
 //               ! && || == != < <= > >= + - * (ints; + also on strings), len, append, make(T, 0),
 //               []byte(x) / string(x) / byte(lit) / int(x), []byte{…}, [][]byte{…}, []string{…},
-//               x[i], x[i:j], make([]T, n), x[i] = e (→ `Go.set`), and calls of the library table
+//               x[i], x[i:j], make([]T, n), x[i] = e (→ `Go.set`), copy(dst, src), fmt.Sprintf with
+//               %d / %s, for init; cond; post { … } and for cond { … } (→ `Go.forLoop` with a `fuel`
+//               parameter; the loop step / post become auxiliary definitions), and calls of the library table
 //               below or of the FnSpec's own table.
 // Control flow  `if` whose branches neither return nor index is rendered as a join
 //               (`let (a, b) := if c then … else …`) over the variables assigned in it; any other
@@ -117,6 +119,9 @@ type FnSpec struct {
 	Lean    string // Lean name of the generated definition
 	Doc     string
 	Binders string            // extra Lean binders, placed first, e.g. "(cb : Cb.Callback)"
+	// Results overrides the translator types of the Go results (e.g. "unit" for a pointer to a struct
+	// whose fields are modelled as State)
+	Results []string
 	// BinderArgs: the names bound by Binders, space separated (passed on to the auxiliary loop definitions)
 	BinderArgs string
 	Vals    map[string]Val    // expression key → Lean value (read-only receiver fields, abstracted terms)
@@ -300,6 +305,18 @@ func (t *bodyTr) exprKey(e ast.Expr) string {
 		return t.exprKey(x.Fun) + "(" + strings.Join(args, ", ") + ")"
 	case *ast.StarExpr:
 		return "*" + t.exprKey(x.X)
+	case *ast.ArrayType:
+		if x.Len == nil {
+			return "[]" + t.exprKey(x.Elt)
+		}
+	case *ast.CompositeLit:
+		els := make([]string, len(x.Elts))
+		for i, a := range x.Elts {
+			els[i] = t.exprKey(a)
+		}
+		return t.exprKey(x.Type) + "{" + strings.Join(els, ", ") + "}"
+	case *ast.KeyValueExpr:
+		return t.exprKey(x.Key) + ": " + t.exprKey(x.Value)
 	}
 	return "?"
 }
@@ -494,6 +511,8 @@ func (t *bodyTr) expr(e ast.Expr, sc bscope, want string) Val {
 				return Val{"([] : Bytes)", "bytes"}
 			case "list":
 				return Val{"([] : List Bytes)", "list"}
+			case "unit":
+				return Val{"()", "unit"} // a pointer result the FnSpec declares as not modelled
 			}
 			return Val{t.unsupported("nil"), want}
 		}
@@ -837,6 +856,53 @@ func (t *bodyTr) call(x *ast.CallExpr, sc bscope, want string) Val {
 		}
 		return v
 	}
+	// fmt.Sprintf with %d (int → decimal digits) and %s (string / []byte) verbs
+	if key == "fmt.Sprintf" && len(x.Args) >= 1 {
+		format, ok := t.literalString(x.Args[0])
+		if !ok {
+			return Val{t.unsupported("format"), "bytes"}
+		}
+		var parts []string
+		arg := 1
+		for len(format) > 0 {
+			i := strings.IndexByte(format, '%')
+			if i < 0 {
+				parts = append(parts, "("+LeanBytes(format)+" : Bytes)")
+				break
+			}
+			if i > 0 {
+				parts = append(parts, "("+LeanBytes(format[:i])+" : Bytes)")
+			}
+			if i+1 >= len(format) || arg >= len(x.Args) {
+				return Val{t.unsupported("format"), "bytes"}
+			}
+			switch format[i+1] {
+			case 'd':
+				v := t.expr(x.Args[arg], sc, "int")
+				if v.Ty != "int" {
+					v.Lean = t.unsupported("format_argument")
+				}
+				parts = append(parts, "(Go.fmtInt "+v.Lean+")")
+			case 's':
+				v := t.expr(x.Args[arg], sc, "bytes")
+				if v.Ty != "bytes" {
+					v.Lean = t.unsupported("format_argument")
+				}
+				parts = append(parts, v.Lean)
+			default:
+				return Val{t.unsupported("format_verb"), "bytes"}
+			}
+			arg++
+			format = format[i+2:]
+		}
+		if arg != len(x.Args) {
+			return Val{t.unsupported("format_arguments"), "bytes"}
+		}
+		if len(parts) == 0 {
+			return Val{"([] : Bytes)", "bytes"}
+		}
+		return Val{"(" + strings.Join(parts, " ++ ") + ")", "bytes"}
+	}
 	// fmt.Errorf("%w: …", util.ErrX): only the wrapped sentinel is kept
 	if key == "fmt.Errorf" {
 		var sentinels []string
@@ -1038,6 +1104,9 @@ func (t *bodyTr) assigned(nodes []ast.Node, sc bscope) []string {
 				if ef, ok := t.spec.Effects[t.exprKey(x.Fun)]; ok {
 					add(ef.State)
 				}
+				if id, ok := x.Fun.(*ast.Ident); ok && id.Name == "copy" && len(x.Args) == 2 {
+					target(x.Args[0])
+				}
 			}
 			return true
 		})
@@ -1216,6 +1285,18 @@ func (t *bodyTr) seq(stmts []ast.Stmt, sc bscope, ctx bctx, ind string) string {
 					a.Lean = t.unsupported("effect_argument")
 				}
 				return t.flush(ctx, ind) + fmt.Sprintf("%slet %s := %s ++ [%s]\n", ind, ef.State, ef.State, a.Lean) + rest(sc, ind)
+			}
+		}
+		if c, ok := x.X.(*ast.CallExpr); ok && len(c.Args) == 2 {
+			if id, ok := c.Fun.(*ast.Ident); ok && id.Name == "copy" {
+				if _, _, shadowed := sc.lookup("copy"); !shadowed {
+					ln, ty := t.lhs(c.Args[0], sc)
+					src := t.expr(c.Args[1], sc, ty)
+					if (ty != "bytes" && ty != "list") || src.Ty != ty {
+						return bad("copy")
+					}
+					return t.flush(ctx, ind) + fmt.Sprintf("%slet %s := (Go.copy %s %s)\n", ind, ln, ln, src.Lean) + rest(sc, ind)
+				}
 			}
 		}
 		return bad("expression_statement")
@@ -1933,8 +2014,16 @@ func GenBody(spec *FnSpec) string {
 	}
 	var resLean []string
 	if fd.Type.Results != nil {
+		ri := 0
 		for _, f := range fd.Type.Results.List {
 			ty := goTypeOf(f.Type)
+			if ri < len(spec.Results) && spec.Results[ri] != "" {
+				ty = spec.Results[ri]
+			}
+			ri += len(f.Names)
+			if len(f.Names) == 0 {
+				ri++
+			}
 			if ty == "" {
 				sigBad = t.unsupported("result_type")
 			}
